@@ -831,6 +831,14 @@ def case_C16(seed):
 def case_C17(seed):
     rnd = _rnd(seed, 'C17')
     case = U.gen_case(rnd, trace_kind=rnd.choice(['onroad', 'onroad', 'walk', 'random', None]))
+    case['trace'] = [tuple(p[:2]) for p in case['trace']]       # pairs here; the triples are this suite's own (below)
+    if seed % 5 == 1 and len(case['graph']) >= 3:
+        # 'every finite map': the map after InMemMap.purge() / del_node() - a node (one without outgoing roads, if there is
+        # one) is gone while the neighbour lists of the other nodes still name it
+        g_ = case['graph']
+        dead = [k for k, (p, nb) in g_.items() if not [b for b in nb if b != k]] or [rnd.choice(sorted(g_, key=str))]
+        del g_[dead[0]]
+        case['removed_node_still_listed_as_neighbour'] = str(dead[0])
     U.quiet()
     viol = []
     try:
